@@ -96,6 +96,8 @@ class Harness:
         # expected outcome: "pass" (default) or "fail" (vacuity twin / known-finding witness)
         self.expect = (tags.get("expect") or ["pass"])[0]
         self.known = (tags.get("known") or [None])[0]   # known-finding id this witness demonstrates
+        # further properties this instance also decides (e.g. tokenizer totality for C02)
+        self.also = [p_.strip() for v in tags.get("also", []) for p_ in v.replace(",", " ").split() if p_.strip()]
         self.bounds = "; ".join(tags.get("bounds", []))
         self.encodes = [e for v in tags.get("encodes", []) for e in v.split(",") if e.strip()]
         self.stubs = re.findall(r"kani::stub\(([^,]+),", attrs)
@@ -272,7 +274,7 @@ def kani_batch(harnesses, jobs, tag, rustflags_cfg=(), total_timeout=None):
 
 
 PLAYBACK_RE = re.compile(
-    r"/// Check for `([^`]*)`: (.*?)\n#\[test\]\nfn (\w+)\(\) \{\n\s*let concrete_vals: Vec<Vec<u8>> = vec!\[(.*?)\n\s*\];",
+    r"/// Check for `([^`]*)`: ([^\n]*)\n(?:///[^\n]*\n|\s*\n)*#\[test\]\nfn (\w+)\(\) \{\n\s*let concrete_vals: Vec<Vec<u8>> = vec!\[(.*?)\n\s*\];",
     re.S,
 )
 
@@ -288,15 +290,17 @@ def kani_counterexamples(h, rustflags_cfg=(), timeout=None):
     rc, out = sh(_ulimit_wrap(cmd), cwd=KANI_DIR, timeout=timeout or (h.timeout * 3 + 300), env=env,
                  log=os.path.join(LOGS, "playback_%s.log" % h.name))
     cex = []
+    covers = []
     for m in PLAYBACK_RE.finditer(out):
         kind, desc, _fn, body = m.groups()
-        if kind == "cover":
-            continue
         values = []
         for vm in re.finditer(r"vec!\[([0-9, ]*)\]", body):
             values.append([int(x) for x in vm.group(1).split(",") if x.strip()])
-        cex.append({"check": kind, "description": desc.strip().strip('"'), "values": values})
-    return cex
+        item = {"check": kind, "description": desc.strip().strip('"'), "values": values}
+        (covers if kind == "cover" else cex).append(item)
+    # Kani sometimes prints a playback test only for the cover properties; any input that makes
+    # the natively replayed harness fail is a genuine failure, so those are tried as well
+    return cex + covers
 
 
 def build_native():
